@@ -132,7 +132,9 @@ func dereferenceJSONPointer(s *Schema, sptr string) (_ *Schema, err error) {
 			return nil, fmt.Errorf("value %s (%s) is not a schema, slice or map", v, v.Type())
 		}
 	}
-	if s, ok := v.Interface().(*Schema); ok {
+	// The pointer must end at a place that holds a subschema. A *Schema stored in the
+	// value of another keyword (an element of enum or examples) is not part of the tree.
+	if s, ok := v.Interface().(*Schema); ok && v.Type() == schemaType {
 		if s == nil {
 			// For example "#/not" in a schema without a "not" keyword.
 			return nil, errors.New("refers to an absent schema")
